@@ -3,66 +3,101 @@
   full grammar are carried by the correspondence run of `harness/src/bin/c06.rs`).
 -/
 import YashModel.Syntax.Lemmas
+import YashModel.Syntax.WordLemmas
+import YashModel.Syntax.CommandLemmas
 namespace YashModel.Syntax
 
 /-- ★ Every escape unit the parser can produce is printed as text that the escape lexer reads back as the
     same unit, whatever follows it (every `\c` control form including `\c\\`, three-digit octal, two-digit
     hex, `\u`/`\U`, every literal character). -/
 theorem escape_unit_roundtrip (u : EscapeUnit) (h : u.Producible) (rest : List Char) :
-    lexEscape (printEscape u ++ rest) = some (u, rest) := by
-  cases u with
-  | literal c =>
-    have hc : c ≠ '\\' := h
-    simp [printEscape, lexEscape, hc]
-  | control b =>
-    have hb : b.toNat < 32 ∨ b.toNat = 127 := h
-    by_cases h28 : b = 0x1C
-    · subst h28
-      simp [printEscape, lexEscape, toAsciiUpper]
-    · have hlt : b.toNat < 256 := b.toNat_lt
-      have hne : b.toNat ≠ 28 := by
-        intro hh
-        apply h28
-        rw [← UInt8.ofNat_toNat (x := b), hh]
-        rfl
-      have hf := ctrl_facts ⟨b.toNat, hlt⟩ hb hne
-      simp only [UInt8.ofNat_toNat] at hf
-      obtain ⟨f1, f2, f3, f4, f5⟩ := hf
-      have hp : printEscape (.control b) = ['\\', 'c', Char.ofNat (b ^^^ 0x40).toNat] := by
-        simp only [printEscape, h28, if_false]
-      rw [hp]
-      generalize Char.ofNat (b ^^^ 0x40).toNat = ch at *
-      simp [lexEscape, f1, f2, f3, f4, f5]
-  | octal b =>
-    have hlt : b.toNat < 256 := b.toNat_lt
-    obtain ⟨_, h2⟩ := octDigits_octal3 b.toNat hlt rest
-    have h8 : b.toNat / 64 % 8 < 8 := Nat.mod_lt _ (by decide)
-    simp only [printEscape, octal3, List.cons_append, List.nil_append]
-    rw [lexEscape_octal_digit _ h8, h2]
-    simp only [if_pos hlt, UInt8.ofNat_toNat]
-  | hex b =>
-    have hlt : b.toNat < 256 := b.toNat_lt
-    simp only [printEscape, List.cons_append]
-    simp [lexEscape, hexDigits_upperHex2 _ hlt]
-  | unicode c =>
-    have hv : c.toNat < 1114112 := by
-      have := c.valid
-      have e : c.toNat = c.val.toNat := rfl
-      unfold Nat.isValidChar at this
-      omega
-    by_cases hs : c.toNat ≤ 0xFFFF
-    · have : c.toNat < 65536 := by omega
-      simp only [printEscape, hs, if_true, List.cons_append]
-      simp [lexEscape, hexDigits_lowerHex4 _ this, charFromU32_toNat]
-    · have : c.toNat < 4294967296 := by omega
-      simp only [printEscape, hs, if_false, List.cons_append]
-      simp [lexEscape, hexDigits_upperHex8 _ this, charFromU32_toNat]
-  | _ => simp [printEscape, lexEscape]
-
+    lexEscape (printEscape u ++ rest) = some (u, rest) :=
+  escape_unit_roundtrip_aux u h rest
 
 example : (EscapeUnit.control 0x1C).Producible := Or.inl (by decide)
 example : lexEscape (printEscape (.control 0x1C) ++ ['\\', 'c', '\\', '\\']) =
     some (.control 0x1C, ['\\', 'c', '\\', '\\']) := by decide
 example : lexEscape (printEscape (.unicode '😀') ++ ['A']) = some (.unicode '😀', ['A']) := by decide
+
+
+/-
+  ★ (design) word_self_delimiting : ∀ w ∈ Fragment, ∀ d rest, lexWord (printWord w ++ d :: rest) = (w, d :: rest)
+  with Fragment = all word units.  Proved below for the fragment `WordUnit.Flat`: unquoted literal
+  characters that are neither delimiters nor one of `\ ' " $ \``, backslash-escaped characters (any
+  but newline, which the lexer removes as a line continuation), single-quoted strings, and
+  dollar-single-quoted strings made of every producible escape unit.  Missing: parameter expansions
+  (`$x`, `${x…}` with modifiers), double quotes, backquotes (the model lexer covers them and is run
+  against the implementation's printed text on every correspondence run, but the mutual induction
+  through `${…}` was not finished), command substitutions and arithmetic (not in the model lexer).
+-/
+
+/-- ★ (partial) A word of the flat fragment is self-delimiting: whatever delimiter character `c` and text
+    `rest` follow its printed form, the word lexer (token delimiters, as used by `Lexer::token`) returns
+    exactly the word and stops in front of `c`. Printing single spaces between words is therefore enough. -/
+theorem word_self_delimiting_partial (w : Word) (h : ∀ u ∈ w, u.Flat .token) (c : Char)
+    (hc : Delim.token.Ends c) (rest : List Char) :
+    lexWord .token (printWord w ++ c :: rest) = some (w, c :: rest) := by
+  unfold lexWord
+  apply lexWordUnits_flat .token (by decide) w h c hc rest
+  simp only [List.length_append, List.length_cons]
+  omega
+
+/-- the same inside `${…}`, where only `}` delimits (words of switch and trim modifiers) -/
+theorem word_self_delimiting_in_braces_partial (w : Word) (h : ∀ u ∈ w, u.Flat .brace)
+    (rest : List Char) :
+    lexWord .brace (printWord w ++ '}' :: rest) = some (w, '}' :: rest) := by
+  unfold lexWord
+  apply lexWordUnits_flat .brace (by decide) w h '}' ⟨by decide, by decide⟩ rest
+  simp only [List.length_append, List.length_cons]
+  omega
+
+example : ∀ u ∈ ([.unquoted (.literal 'a'), .unquoted (.backslashed ' '), .singleQuote ['$', 'x'],
+    .dollarSingleQuote [.control 0x1C, .literal 'z', .octal 7]] : Word), u.Flat .token := by
+  intro u hu
+  simp at hu
+  rcases hu with rfl | rfl | rfl | rfl
+  · exact ⟨by decide, by decide⟩
+  · show ' ' ≠ '\n'; decide
+  · show '\'' ∉ ['$', 'x']; decide
+  · intro v hv
+    simp at hv
+    rcases hv with rfl | rfl | rfl
+    · exact ⟨Or.inl (by decide), by simp⟩
+    · exact ⟨by show 'z' ≠ '\\'; decide, by simp⟩
+    · exact ⟨trivial, by simp⟩
+example : Delim.token.Ends ';' := ⟨by decide, by decide⟩
+example : Delim.token.Ends ' ' := ⟨by decide, by decide⟩
+
+
+/-
+  ★ (design) simple_command_roundtrip : parsing the printed form of a simple command (assignments, words,
+  redirections, with the keyword-first reordering and the IO-number rule) gives the command back.
+  Proved below for the argument words only.  Missing: assignments (`Assign::try_from`), redirections
+  (operator and IO-number recognition), the keyword-first rule — these are in the printer model and are
+  compared with the implementation on every run, and the Rust-side oracle re-parses every printed
+  command, but the model has no token-level parser for them.
+-/
+
+/-- ★ (partial) A simple command made of argument words of the flat fragment prints as its words
+    separated by single blanks, and reading word tokens from that text (skip blanks, `word`,
+    `parse_tilde_front`) up to the terminating operator character `c` gives exactly the words back. -/
+theorem simple_command_roundtrip_partial (ws : List Word) (h : ∀ w ∈ ws, w.FlatArg) (c : Char)
+    (hc : Delim.token.Ends c) (hb : isBlank c = false) (rest : List Char) :
+    lexWords (ws.length + 1) (printSimple ⟨[], ws, []⟩ ++ c :: rest) = some (ws, c :: rest) := by
+  have hp : printSimple ⟨[], ws, []⟩ = printWords ws := by
+    simp [printSimple, printWords]
+  rw [hp]
+  have := lexWords_print c hc hb rest ws h false (ws.length + 1) (Nat.le_refl _)
+  simpa using this
+
+example : Word.FlatArg [.unquoted (.literal 'e'), .unquoted (.backslashed '~'), .singleQuote ['a', ' ']] := by
+  refine ⟨?_, by simp, by simp⟩
+  intro u hu
+  simp at hu
+  rcases hu with rfl | rfl | rfl
+  · exact ⟨by decide, by decide⟩
+  · show '~' ≠ '\n'; decide
+  · show '\'' ∉ ['a', ' ']; decide
+example : Delim.token.Ends ';' ∧ isBlank ';' = false := ⟨⟨by decide, by decide⟩, by decide⟩
 
 end YashModel.Syntax
